@@ -3,8 +3,10 @@ import H3.Model.Headers
     field values, pseudo-header fields, trailers), RFC 9110 §5.1/§5.5/§5.6.2/§9.1/§15 (token,
     field-value bytes, method, status-code) and RFC 9220/8441 (`:protocol`) — not from the control
     flow of `headers.rs`.  It shares with the model only the vocabulary: byte strings, the
-    spelling of the seven names and the abstract `http` parsers (`Http`), which *define* what
-    "parseable" means for `:scheme`, `:authority` and `:path`.
+    spelling of the seven names and the abstract `http` parsers (`Http`), which say what
+    "parseable" means for `:scheme`, `:authority` and `:path` as far as h3 delegates it (reading
+    R-12c); what every grammar of these three components demands is written out below, without the
+    crate (`SyntaxOk`), and the `:protocol` tokens are written out too (`protocolTokens`).
 
     What the text does not state is not demanded: no ordering of received pseudo-header fields,
     nothing about duplicated pseudo-header fields, no `:scheme`/`:path` presence (reading R-12 in
@@ -59,15 +61,28 @@ instance (v : Bytes) : Decidable (StatusCode v) := by unfold StatusCode DIGIT; i
 def IsPseudo (n : Bytes) : Prop := n.head? = some 0x3a
 instance (n : Bytes) : Decidable (IsPseudo n) := by unfold IsPseudo; infer_instance
 
+/-- The `:protocol` values h3 knows, written out: the tokens of the IANA "HTTP Upgrade Tokens"
+    registry that `h3::ext::Protocol` has a constant for — `webtransport`
+    (draft-ietf-webtrans-http3), `connect-udp` (RFC 9298), `connect-ip` (RFC 9484), `websocket`
+    (RFC 9220 / RFC 8441).  The list the translator reads from `ext.rs` is proved equal to this one
+    (`H3.Props.C12.protocols_gen_eq_spec`), so the oracle does not take its word from the code. -/
+def protocolTokens : List Bytes :=
+  [[0x77, 0x65, 0x62, 0x74, 0x72, 0x61, 0x6e, 0x73, 0x70, 0x6f, 0x72, 0x74],   -- webtransport
+   [0x63, 0x6f, 0x6e, 0x6e, 0x65, 0x63, 0x74, 0x2d, 0x75, 0x64, 0x70],         -- connect-udp
+   [0x63, 0x6f, 0x6e, 0x6e, 0x65, 0x63, 0x74, 0x2d, 0x69, 0x70],               -- connect-ip
+   [0x77, 0x65, 0x62, 0x73, 0x6f, 0x63, 0x6b, 0x65, 0x74]]                     -- websocket
+
 /-- the six defined pseudo-header fields (RFC 9114 §4.3.1, §4.3.2; RFC 9220 §3), each with a
-    value its parser accepts.  (Which of them is defined for which kind of message: `DefinedFor`.) -/
+    value its parser accepts (reading R-12c: "parseable" = the parser h3 delegates to accepts it;
+    the crate-independent necessary conditions are `SyntaxOk` below).  (Which of them is defined
+    for which kind of message: `DefinedFor`.) -/
 def PseudoOk (H : Http) (n v : Bytes) : Prop :=
   (n = nMethod ∧ MethodToken v) ∨
   (n = nScheme ∧ (H.parseScheme v).isSome) ∨
   (n = nAuthority ∧ (H.parseAuthority v).isSome) ∨
   (n = nPath ∧ (H.parsePath v).isSome) ∨
   (n = nStatus ∧ StatusCode v) ∨
-  (n = nProtocol ∧ v ∈ H3.Gen.Headers.protocols)
+  (n = nProtocol ∧ v ∈ protocolTokens)
 instance (H : Http) (n v : Bytes) : Decidable (PseudoOk H n v) := by unfold PseudoOk; infer_instance
 
 /-- one field line of a header section -/
@@ -115,8 +130,76 @@ def DefinedFor (defined : List Bytes) (fs : List FieldLine) : Prop :=
 instance (d : List Bytes) (fs : List FieldLine) : Decidable (DefinedFor d fs) := by
   unfold DefinedFor; infer_instance
 
+/-! ### "parseable values": what does not depend on the `http` crate (reading R-12c)
+
+    `PseudoOk` asks the `http` crate (h3 delegates to it).  RFC 9114 §4.3.1 names what each field
+    carries — `:scheme` "the scheme portion of the URI" (RFC 3986 §3.1), `:authority` "the authority
+    portion of the target URI" (§3.2), `:path` "the path and query parts of the target URI" (§3.3,
+    §3.4) — so a value outside that grammar is not parseable whatever a library says.  The clauses
+    below are *necessary* conditions taken from those grammars (complete for the scheme, partial for
+    the other two), each one line of the RFC; DESIGN.md section 9, R-12c lists per class what is
+    demanded, what is not, and why. -/
+
+def ALPHA (b : Nat) : Prop := UPPER b ∨ LOWER b
+instance (b : Nat) : Decidable (ALPHA b) := by unfold ALPHA UPPER LOWER; infer_instance
+
+/-- the first byte is a letter (so the value is not empty) -/
+def StartsAlpha : Bytes → Prop
+  | [] => False
+  | b :: _ => ALPHA b
+instance (v : Bytes) : Decidable (StartsAlpha v) := by
+  cases v <;> unfold StartsAlpha <;> infer_instance
+
+/-- RFC 3986 §3.1: `scheme = ALPHA *( ALPHA / DIGIT / "+" / "-" / "." )` (the whole grammar). -/
+def SchemeSyntax (v : Bytes) : Prop :=
+  StartsAlpha v ∧ ∀ b ∈ v, ALPHA b ∨ DIGIT b ∨ b = 0x2b ∨ b = 0x2d ∨ b = 0x2e
+instance (v : Bytes) : Decidable (SchemeSyntax v) := by unfold SchemeSyntax DIGIT; infer_instance
+
+/-- what follows the last `@` (the whole value when there is none): `host [ ":" port ]` -/
+def hostPort (v : Bytes) : Bytes := (v.reverse.takeWhile (· ≠ 0x40)).reverse
+
+/-- RFC 3986 §3.2 `authority = [ userinfo "@" ] host [ ":" port ]`, two necessary conditions:
+    neither `userinfo` nor `host` contains `@`, so there is at most one; and unless the host is an
+    IP literal (`[`…`]`) it contains no `:` (`reg-name`, `IPv4address`), so what follows the first
+    `:` of `host [ ":" port ]` is `port = *DIGIT`.
+    (NOT asked: a non-empty host, a port below 65536, the absence of userinfo — R-12c.) -/
+def AuthoritySyntax (v : Bytes) : Prop :=
+  (v.filter (· = 0x40)).length ≤ 1 ∧
+  ((hostPort v).head? = some 0x5b ∨ ∀ b ∈ ((hostPort v).dropWhile (· ≠ 0x3a)).drop 1, DIGIT b)
+instance (v : Bytes) : Decidable (AuthoritySyntax v) := by unfold AuthoritySyntax DIGIT; infer_instance
+
+/-- RFC 3986 §3.3 / §3.4: `#` is neither a `pchar` nor a query character — it ends the query and
+    starts the fragment, which is not part of a request target (RFC 9110 §7.1).  One necessary
+    condition of "the path and query parts": no `#`. -/
+def PathSyntax (v : Bytes) : Prop := 0x23 ∉ v
+instance (v : Bytes) : Decidable (PathSyntax v) := by unfold PathSyntax; infer_instance
+
+def schemeHttp : Bytes := [0x68, 0x74, 0x74, 0x70]
+def schemeHttps : Bytes := [0x68, 0x74, 0x74, 0x70, 0x73]
+
+/-- the necessary condition of one field line -/
+def PseudoSyntax (n v : Bytes) : Prop :=
+  (n = nScheme → SchemeSyntax v) ∧ (n = nAuthority → AuthoritySyntax v) ∧ (n = nPath → PathSyntax v)
+instance (n v : Bytes) : Decidable (PseudoSyntax n v) := by unfold PseudoSyntax; infer_instance
+
+/-- RFC 9114 §4.3.1: "This pseudo-header field MUST NOT be empty for "http" or "https" URIs": when
+    the section's `:scheme` is `http` or `https` (every `:scheme` value, and there is one), no
+    `:path` value is empty. -/
+def PathNonEmptyHttp (fs : List FieldLine) : Prop :=
+  valuesOf nScheme fs ≠ [] → (∀ s ∈ valuesOf nScheme fs, s = schemeHttp ∨ s = schemeHttps) →
+  ∀ p ∈ valuesOf nPath fs, p ≠ []
+instance (fs : List FieldLine) : Decidable (PathNonEmptyHttp fs) := by unfold PathNonEmptyHttp; infer_instance
+
+/-- the crate-independent part of "parseable values" for a request section (R-12c) -/
+def SyntaxOk (fs : List FieldLine) : Prop := (∀ f ∈ fs, PseudoSyntax f.1 f.2) ∧ PathNonEmptyHttp fs
+instance (fs : List FieldLine) : Decidable (SyntaxOk fs) := by unfold SyntaxOk; infer_instance
+
 def WellFormedRequest (H : Http) (fs : List FieldLine) : Prop :=
   (∀ f ∈ fs, FieldOk H f) ∧ DefinedFor requestPseudoNames fs ∧ (∃ f ∈ fs, f.1 = nMethod) ∧ AuthorityOk fs
+
+/-- a well-formed request whose `:scheme` / `:authority` / `:path` values also satisfy the
+    crate-independent necessary conditions (R-12c): what the driver's oracle demands. -/
+def WellFormedRequestStrict (H : Http) (fs : List FieldLine) : Prop := WellFormedRequest H fs ∧ SyntaxOk fs
 
 def WellFormedResponse (H : Http) (fs : List FieldLine) : Prop :=
   (∀ f ∈ fs, FieldOk H f) ∧ DefinedFor responsePseudoNames fs ∧ (∃ f ∈ fs, f.1 = nStatus)
@@ -134,6 +217,8 @@ def CarriesRegular (entries fs : List FieldLine) : Prop :=
 
 instance (H : Http) (fs : List FieldLine) : Decidable (WellFormedRequest H fs) := by
   unfold WellFormedRequest; infer_instance
+instance (H : Http) (fs : List FieldLine) : Decidable (WellFormedRequestStrict H fs) := by
+  unfold WellFormedRequestStrict; infer_instance
 instance (H : Http) (fs : List FieldLine) : Decidable (WellFormedResponse H fs) := by
   unfold WellFormedResponse; infer_instance
 instance (fs : List FieldLine) : Decidable (WellFormedTrailers fs) := by
